@@ -70,6 +70,7 @@ def run(prog, ctx):
     # ---------------- C02.G / C02.P : register stores in the three array updates
     n_store = 0
     n_pair = 0
+    n_val = 0
     for owner in ARRAYS:
         f = C.fn_one(prog, owner, "update")
         if f is None:
@@ -115,6 +116,37 @@ def run(prog, ctx):
                             "register store (%s) in %s is not dominated by a strict `new > old` comparison%s" % (
                                 kind, f.id, " (found non-strict %s)" % (show(loose[1]) + " >= " + show(loose[2])) if loose else ""),
                             f.id, site.get("span"))
+            # C02.V the value stored is the value the estimator was told about: the aux map and the 6/8-bit registers hold the
+            # absolute new value (the 4-bit nibble holds new - cur_min, rule A4)
+            val_arg = None
+            if kind == "aux" and len(site.get("args", [])) == 3:
+                val_arg = site["args"][2]
+            elif kind == "reg" and owner != ARRAYS[0] and len(site.get("args", [])) == 3:
+                val_arg = site["args"][2]
+            news = [s.at(bb, "t").operand(st["args"][3]) for bb, st in f.calls() if (st.get("callee") or "").endswith("HipEstimator::update") and len(st["args"]) == 4]
+            if val_arg is not None and news:
+                res.obligations += 1
+                ve = s.at(b, "t").operand(val_arg)
+                rnd_v = random.Random(7)
+                verdict = True
+                try:
+                    for _ in range(60):
+                        env = {"coupon": rnd_v.getrandbits(32), "self.cur_min": rnd_v.randrange(0, 30), "@prog": prog}
+                        env["self.lg_config_k"] = rnd_v.randrange(4, 22)
+                        got, want = formula.evaluate(ve, env), formula.evaluate(news[0], env)
+                        if got != want:
+                            verdict = (env["coupon"], env["self.cur_min"], got, want)
+                            break
+                except formula.Uneval:
+                    verdict = None
+                if verdict is True:
+                    res.discharged += 1
+                    n_val += 1
+                elif verdict is None:
+                    res.undecided += 1
+                else:
+                    res.violate("C02.V", "C02.V|%s|%s" % (f.id, kind), "%s stores %s into the %s, but the value reported to the estimator is %s (coupon=%#x cur_min=%d: %r vs %r)" % (
+                        f.id, show(ve), "aux map" if kind == "aux" else "register", show(news[0]), verdict[0], verdict[1], verdict[2], verdict[3]), f.id, site.get("span"))
             # pairing with the estimator
             est = [bb for bb, st in f.calls() if (st.get("callee") or "").endswith("HipEstimator::update")]
             res.obligations += 1
@@ -150,6 +182,7 @@ def run(prog, ctx):
                                 "decrement of %s in %s is not guarded by `old == <min value>`" % (fld, f.id), f.id, span)
     res.rule("C02.G", n_store, 5, "register / aux-map stores in Array4/6/8::update")
     res.rule("C02.P", n_pair, 5, "stores paired with HipEstimator::update")
+    res.rule("C02.V", n_val, 3, "stored values equal to the value reported to the estimator")
 
     # ---------------- C02.M : slot / value derivation (formula on a grid)
     rnd = random.Random(20260926)
